@@ -273,7 +273,9 @@ func (r *transport) handleCacheMiss(
 		return nil, err
 	}
 	ccResp := internal.ParseCCResponseDirectives(resp.Header)
-	if r.ce.CanStoreResponse(resp, ccReq, ccResp) {
+	// A 304 on this path answers the client's own conditional request; there is no stored
+	// response it could update, so it must not be stored (RFC 9111 §3).
+	if resp.StatusCode != http.StatusNotModified && r.ce.CanStoreResponse(resp, ccReq, ccResp) {
 		_ = r.rs.StoreResponse(req, resp, urlKey, refs, start, end, refIndex)
 	}
 	internal.CacheStatusMiss.ApplyTo(resp.Header)
